@@ -163,6 +163,9 @@ def install(plan):
             return VQueue(*a, **k)
 
         def __getattr__(self, name):
+            if name == "cpu_count" and plan.get("cpu_count"):
+                # the host's CPU count is part of the environment (realign clamps --cores with it)
+                return lambda: int(plan["cpu_count"])
             return getattr(mp, name)
 
     MPShim = _MPShim()
